@@ -195,17 +195,30 @@ class ExprMixin:
         return SV(mk(h, vv), T.Dict(kt, vt), fresh=True)
 
     def ev_JoinedStr(self, node):
-        args = []
+        # the value of an f-string is a function of its template (literal parts, conversions, format specs) and of
+        # the formatted values: one uninterpreted function per template, shared by code and specs
+        args, tmpl, opaque_part = [], [], False
         for v in node.values:
             if isinstance(v, ast.FormattedValue):
                 try:
                     a = self.ev(v.value)
                 except Unsupported:
                     a = None
+                spec = ast.unparse(v.format_spec) if v.format_spec is not None else ""
                 if isinstance(a, SV) and a.term is not None:
                     args.append(a.term)
-        f = self.w.func(f"fstr@{self.frames[-1].fn_name}:{node.lineno}:{node.col_offset}",
-                        *[a.sort() for a in args], self.w.StrSort)
+                    tmpl.append("{%s!%s:%s}" % (a.term.sort().name(), v.conversion, spec))
+                else:
+                    opaque_part = True
+                    tmpl.append("{?}")
+            else:
+                tmpl.append(repr(v.value))
+        if opaque_part:
+            name = f"fstr@{self.frames[-1].fn_name}:{node.lineno}:{node.col_offset}"
+        else:
+            import hashlib as _h
+            name = "fstr:" + _h.sha1("".join(tmpl).encode()).hexdigest()[:12]
+        f = self.w.func(name, *[a.sort() for a in args], self.w.StrSort)
         return SV(f(*args) if args else f(), T.STR)
 
     def ev_IfExp(self, node):
@@ -344,6 +357,11 @@ class ExprMixin:
         if not isinstance(a, SV) or not isinstance(b, SV):
             raise Unsupported(f"binary operator on {type(a).__name__}/{type(b).__name__} at line {line}")
         num = ("int", "real", "bool")
+        # Optional[number] in arithmetic: a TypeError when None (the coercion obliges `is not None`)
+        if a.ty.kind == "opt" and a.ty.args[0].kind in num and b.ty.kind in num:
+            a = self.coerce(a, a.ty.args[0], line)
+        if b.ty.kind == "opt" and b.ty.args[0].kind in num and a.ty.kind in num:
+            b = self.coerce(b, b.ty.args[0], line)
         if a.ty.kind in num and b.ty.kind in num:
             if isinstance(op, ast.Div):
                 a, b = self.coerce(a, T.REAL), self.coerce(b, T.REAL)
